@@ -1,0 +1,56 @@
+//go:build verif
+
+package internal
+
+import (
+	"strconv"
+	"time"
+
+	"github.com/oxia-db/oxia/common/rpc"
+)
+
+// Thin export for the /verif correspondence harness (property C18). No logic.
+//
+// VerifShardManager is the REAL shard manager (NewShardManager: the receive loop over the client pool's
+// GetShardAssignments stream, receive -> update) with read access to its shard map. Its key-to-hash function
+// parses the key as a decimal hash code, so that the harness can probe chosen hash codes through Get.
+type VerifShardManager struct {
+	sm *shardManagerImpl
+}
+
+func NewVerifShardManager(pool rpc.ClientPool, serviceAddress string, namespace string, requestTimeout time.Duration) (*VerifShardManager, error) {
+	strategy := &shardStrategyImpl{hashFunc: func(key string) uint32 {
+		code, _ := strconv.ParseUint(key, 10, 32)
+		return uint32(code)
+	}}
+	sm, err := NewShardManager(strategy, pool, serviceAddress, namespace, requestTimeout)
+	if err != nil {
+		return nil, err
+	}
+	return &VerifShardManager{sm: sm.(*shardManagerImpl)}, nil //nolint:revive
+}
+
+func (v *VerifShardManager) Close() error { return v.sm.Close() }
+
+// Shards is a snapshot of the shard map.
+func (v *VerifShardManager) Shards() []Shard {
+	v.sm.RLock()
+	defer v.sm.RUnlock()
+	res := make([]Shard, 0, len(v.sm.shards))
+	for _, s := range v.sm.shards {
+		res = append(res, s)
+	}
+	return res
+}
+
+func (v *VerifShardManager) GetAll() []int64 { return v.sm.GetAll() }
+
+// Get is ShardManager.Get for the key whose hash code is code.
+func (v *VerifShardManager) Get(code uint32) (id int64, panicked bool) {
+	defer func() {
+		if r := recover(); r != nil {
+			panicked = true
+		}
+	}()
+	return v.sm.Get(strconv.FormatUint(uint64(code), 10)), false
+}
